@@ -232,10 +232,11 @@ def run_server(cas, ops, via_service_all=False):
 # composite entry points: the stacks are serviced ONLY through serviceAll()
 
 def run_server_all(cas, passes):
-    """cas: ports of peers accepted by a first (data-less) serviceAll;
-    passes: list of {ca: [recv results]} -- one serviceAll() per element.
-    returns (obs, got): obs per pass = [(ca, alive, rxbs, cutoff, [delivered packets...]) per ca in cas order]
-    or ('EXC:Name',); got = {ca: bytes the socket double handed out}"""
+    """cas: ports of the peers in the order in which they will connect;
+    passes: list of (arrivals, {ca: [recv results]}) -- the peers in `arrivals` connect (and may
+    already have sent: their recv results of this pass), then ONE serviceAll().
+    returns (obs, got): obs per pass = [(ca, in_table, rxbs, cutoff, [packets delivered to ca's remote])
+    per ca in cas order] or ('EXC:Name',); got = {ca: bytes the socket double handed out}"""
     from ioflo.aio.tcp import serving
     from ioflo.aio.proto import stacking
     w = World()
@@ -253,14 +254,14 @@ def run_server_all(cas, passes):
                 super(Recording, self)._serviceOneRxPkt()
 
         srv = Recording(ha=('127.0.0.1', 9000))
-        socks = {}
-        for ca in cas:
-            s = FakeConn(w, ('127.0.0.1', 9000), ('127.0.0.1', ca))
-            socks[ca] = s
-            w.pending.append((s, ('127.0.0.1', ca)))
+        socks = {ca: FakeConn(w, ('127.0.0.1', 9000), ('127.0.0.1', ca)) for ca in cas}
+        connected = set()
         try:
-            srv.serviceAll()
-            for orcs in passes:
+            for arrivals, orcs in passes:
+                for ca in arrivals:
+                    if ca not in connected:
+                        connected.add(ca)
+                        w.pending.append((socks[ca], ('127.0.0.1', ca)))
                 for ca, orc in orcs.items():
                     socks[ca].recv_orc = list(orc)
                 srv.serviceAll()
